@@ -38,6 +38,7 @@ type c09Plan struct {
 	QueueFull bool
 	Stream    string // "valid", "fewer", "more", "garbage", "truncated", "trailing", "nodial"
 	Second    bool   // a second offer of the same keys once they are observably in flight
+	Third     bool   // then a third party's overlapping offer whose transfer ends at once, then the keys are offered again
 }
 
 func genC09(t *rapid.T) c09Plan {
@@ -59,7 +60,7 @@ func genC09(t *rapid.T) c09Plan {
 		Limit: rapid.SampledFrom([]int{50, 50, 50, 2, 1, -1}).Draw(t, "limit"), PreTaken: rapid.SampledFrom([]int{0, 0, 0, 1, 2}).Draw(t, "pre"),
 		QueueCap: rapid.SampledFrom([]int{1, 2, 50}).Draw(t, "qcap"), QueueFull: rapid.IntRange(0, 7).Draw(t, "qfull") == 0,
 		Stream: rapid.SampledFrom([]string{"valid", "valid", "valid", "fewer", "more", "garbage", "truncated", "trailing", "nodial"}).Draw(t, "stream"),
-		Second: rapid.IntRange(0, 2).Draw(t, "second") == 0}
+		Second: rapid.IntRange(0, 2).Draw(t, "second") == 0, Third: rapid.Bool().Draw(t, "third")}
 }
 
 func offerKeyBytes(seed uint32, i int) []byte {
@@ -288,6 +289,56 @@ func runC09(p c09Plan, c *stats.Case) error {
 				}
 			}
 			c.NT("overlapping-offer")
+			// version 1: a third party offers the same keys plus a fresh one; its transfer ends at once (garbage
+			// stream); the first offer's keys must still count as being received afterwards
+			if ver == 1 && p.Third {
+				fresh := offerKeyBytes(0xF00D, 999)
+				keys3 := append(append([][]byte{}, keys...), fresh)
+				free3, _ := b.Utp.VerifFreeSlots()
+				a3, err3 := pp.NewLive(hub, pp.LiveOpts{KeyIdx: 74, Port: nextPort(), Versions: p.VA, UtpFast: true})
+				if err3 == nil && free3 > 0 && len(keys3) <= 64 {
+					defer a3.Stop()
+					if _, perr := a3.P.VerifPing(b.Node()); perr == nil {
+						reply3, herr3 := b.P.VerifHandleOffer(a3.Node(), &net.UDPAddr{IP: net.IP{127, 0, 0, 1}, Port: a3.Opts.Port}, &portalwire.Offer{ContentKeys: keys3})
+						if herr3 == nil {
+							cid3, acc3, _, perr3 := parseAccept(reply3, ver, len(keys3))
+							if perr3 != nil {
+								return fmt.Errorf("third offer: %v", perr3)
+							}
+							for i := range keys {
+								if acc3[i] && accepted[i] {
+									return fmt.Errorf("third offer (version 1): key %d accepted again while its first transfer is in progress", i)
+								}
+							}
+							if acc3[len(keys3)-1] {
+								ctx3, cancel3 := context.WithTimeout(context.Background(), 8*time.Second)
+								defer cancel3()
+								if conn3, derr3 := a3.Utp.DialWithCid(ctx3, b.Node(), cid3); derr3 == nil {
+									_, _ = conn3.Write(ctx3, []byte{0xff, 0xff, 0xff, 0xff, 0xff, 0x01})
+									conn3.Close()
+									// its slot comes back when its goroutine has ended and cleaned up
+									if waitFreeInbound(b, free3, 8*time.Second) == free3 {
+										a4 := peerNode("set", p.VA, 75)
+										reply4, herr4 := b.P.VerifHandleOffer(a4, &net.UDPAddr{IP: net.IP{127, 0, 0, 1}, Port: 30075}, &portalwire.Offer{ContentKeys: keys})
+										if herr4 == nil {
+											_, acc4, _, perr4 := parseAccept(reply4, ver, len(keys))
+											if perr4 != nil {
+												return fmt.Errorf("fourth offer: %v", perr4)
+											}
+											for i := range acc4 {
+												if acc4[i] && accepted[i] {
+													return fmt.Errorf("after an overlapping offer from a third party ended, key %d of the first offer (still being received) was accepted again", i)
+												}
+											}
+											c.NT("offer-after-overlapping-offer-ended")
+										}
+									}
+								}
+							}
+						}
+					}
+				}
+			}
 		}
 	}
 
